@@ -77,10 +77,19 @@ def getEscaped (prev : Bool) (bs : Mask) : Mask × Bool := getEscapedFrom prev b
 def getEscapedBits (N prev bs : Nat) : Nat × Nat :=
   let M := 2 ^ 64
   let odd_bits := 0xAAAAAAAAAAAAAAAA
-  let with_prev_backslash := bs &&& ((M - 1) ^^^ prev)                       -- backslash & ~prev_escaped
+  let with_prev_backslash := bs &&& (M - 1 - prev)                         -- backslash & ~prev_escaped
   let escaped := (((((with_prev_backslash <<< 1) % M) ||| odd_bits) + M - with_prev_backslash) % M) ^^^ odd_bits
   let escaped_with_prev := escaped ^^^ (bs ||| prev)
   let prev' := ((escaped &&& bs) >>> (N - 1)) &&& 1
+  (escaped_with_prev, prev')
+
+/-- the same code on `uint64_t = BitVec 64` (wrap-around arithmetic is built in) -/
+def getEscapedBV (N : Nat) (prev bs : BitVec 64) : BitVec 64 × BitVec 64 :=
+  let odd_bits : BitVec 64 := 0xAAAAAAAAAAAAAAAA#64
+  let with_prev_backslash := bs &&& ~~~prev
+  let escaped := (((with_prev_backslash <<< 1) ||| odd_bits) - with_prev_backslash) ^^^ odd_bits
+  let escaped_with_prev := escaped ^^^ (bs ||| prev)
+  let prev' := ((escaped &&& bs) >>> (N - 1)) &&& 1#64
   (escaped_with_prev, prev')
 
 end Sonic.Model.OnDemand
